@@ -325,6 +325,35 @@ def run_cfgfile(eng, p):
     return "ok"
 
 
+def run_seqmeta(eng, p):
+    """sequence-valued [user] metadata written by the real store_metadata and
+    read by the real parse_config keeps its length (also length 1)"""
+    from vf import symh5
+    from vf.dcsym import build_class
+    from vf.symx import rebind
+    from dclab.rtdc_dataset.fmt_hdf5 import base as h5base
+    n = p["n"]
+    Wr = build_class("dclab.rtdc_dataset.writer", "RTDCWriter", h5py=symh5)
+    parse = rebind(real("dclab.rtdc_dataset.fmt_hdf5.base",
+                        "RTDC_HDF5.parse_config"), h5py=symh5)
+    f = symh5.File("a.rtdc", "w")
+    val = np.arange(3, 3 + n) if p["vtype"] == "int" else \
+        np.linspace(0.25, 0.75, n)
+    with quiet():
+        hw = Wr(f)
+        hw.store_metadata({"user": {"gate ids": val if p["as"] == "array"
+                                    else val.tolist()}})
+        cfg = parse(f)
+    got = cfg["user"].get("gate ids")
+    eng.prove(z3.BoolVal(got is not None and np.shape(got) == (n,)),
+              "sequence-valued user metadata keeps its shape",
+              info={"stored": val.tolist(), "read": repr(got)})
+    if got is not None and np.shape(got) == (n,):
+        eng.prove(z3.BoolVal(bool(np.all(np.asarray(got) == val))),
+                  "sequence-valued user metadata keeps its values")
+    return "ok"
+
+
 def run_fintlist(eng, p):
     ns = shadow(MP, float=FLOAT_T, int=INT_T, bool=BOOL_T)
     n = p["n"]
@@ -400,7 +429,9 @@ def run_case(name, params):
         return run_crosshair(params["name"], params["line"],
                              params["budget"])
     eng = Engine(timeout_ms=20000)
-    if params["kind"] == "cfgfile":
+    if params["kind"] == "seqmeta":
+        eng.explore(lambda e: run_seqmeta(e, params))
+    elif params["kind"] == "cfgfile":
         eng.explore(lambda e: run_cfgfile(e, params))
     elif params["kind"] == "conv":
         eng.explore(lambda e: run_conv(e, params))
@@ -430,6 +461,11 @@ def cases(tier, seed):
                                  keys=keys)))
     for n in range(0, 4):
         out.append(("fintlist n=%d" % n, dict(kind="fintlist", n=n)))
+    for n in (1, 2, 3):
+        for vt in ("int", "float"):
+            for as_ in ("array", "list"):
+                out.append(("user sequence n=%d %s %s" % (n, vt, as_),
+                            dict(kind="seqmeta", n=n, vtype=vt, **{"as": as_})))
     for sec, key in (("user", "batch"), ("setup", "identifier"),
                      ("experiment", "sample")):
         if sec == "experiment" and tier == "quick":
@@ -466,6 +502,36 @@ def replay(case, params, v):
                     "detail": det}
         return {"reproduced": True,
                 "key": "%s|%s" % (params["name"], _norm(call)), "detail": det}
+    if params["kind"] == "seqmeta":
+        import tempfile
+        import dclab
+        import dclab.rtdc_dataset.writer as Wm
+        n = params["n"]
+        val = np.arange(3, 3 + n) if params["vtype"] == "int" else \
+            np.linspace(0.25, 0.75, n)
+        oldv = Wm.version
+        Wm.version = "0.62.7"
+        try:
+            with tempfile.TemporaryDirectory(prefix="verif_c11_") as td, \
+                    quiet():
+                pth = os.path.join(td, "m.rtdc")
+                with Wm.RTDCWriter(pth, mode="reset") as hw:
+                    hw.store_feature("deform", np.linspace(.1, .2, 3))
+                    hw.store_metadata({"user": {
+                        "gate ids": val if params["as"] == "array"
+                        else val.tolist()}})
+                with dclab.new_dataset(pth) as ds:
+                    got = ds.config["user"]["gate ids"]
+                    shp = np.shape(got)
+        finally:
+            Wm.version = oldv
+        if shp != (n,):
+            return {"reproduced": True,
+                    "key": "parse_config|sequence-shape-changed",
+                    "detail": "user metadata %r is read back as %r (shape "
+                    "%r)" % (val.tolist(), got, shp)}
+        return {"reproduced": False, "key": "not-reproduced",
+                "detail": "sequence read back with shape %r" % (shp,)}
     if params["kind"] == "cfgfile":
         import tempfile
         from dclab.rtdc_dataset.config import load_from_file
